@@ -11,8 +11,8 @@ import (
 	"sort"
 	"time"
 
-	"github.com/attestantio/go-eth2-client/spec/phase0"
 	eth2apiv1 "github.com/attestantio/go-eth2-client/api/v1"
+	"github.com/attestantio/go-eth2-client/spec/phase0"
 	specqbft "github.com/bloxapp/ssv-spec/qbft"
 	spectypes "github.com/bloxapp/ssv-spec/types"
 	pubsub "github.com/libp2p/go-libp2p-pubsub"
@@ -227,7 +227,10 @@ func run(c *evid.Case) {
 			cl.DropWhere(isType(specqbft.CommitMsgType, r))
 			pattern += "s"
 		}
-		cl.DropWhere(func(fl *dsim.Flight) bool { sm, _ := decode(fl.Msg); return sm != nil && sm.Message.MsgType != specqbft.RoundChangeMsgType })
+		cl.DropWhere(func(fl *dsim.Flight) bool {
+			sm, _ := decode(fl.Msg)
+			return sm != nil && sm.Message.MsgType != specqbft.RoundChangeMsgType
+		})
 		// timeouts: all, or only f+1 (the others follow through the partial quorum)
 		tos := hon
 		if rng.Intn(3) == 0 && len(hon) > f+1 {
